@@ -88,6 +88,7 @@ class FFDirector(SectionLineParser):
         self.current_block = None
         self.current_link = None
         self.current_modification = None
+        self._link_pending = False
         self.blocks = collections.OrderedDict()
         self.links = []
         self.modifications = []
@@ -167,9 +168,10 @@ class FFDirector(SectionLineParser):
             self.current_block.make_edges_from_interactions()
             self.force_field.blocks[self.current_block.name] = self.current_block
 
-        # The link context stays set after its section ended; only register it
-        # when it is a link section that just ended.
-        if self.current_link is not None and previous_section[:1] == ['link']:
+        # The link context stays set after its section ended; register every
+        # link exactly once.
+        if self.current_link is not None and self._link_pending:
+            self._link_pending = False
             # add FF wide citations
             self.current_link.citations.update(self.citations)
             self.current_link.make_edges_from_interactions()
@@ -202,6 +204,7 @@ class FFDirector(SectionLineParser):
 
     def _new_link(self):
         self.current_link = Link(force_field=self.force_field)
+        self._link_pending = True
 
     def _new_modification(self):
         self.current_modification = Modification(force_field=self.force_field)
